@@ -129,6 +129,16 @@ def shadow_family(backend):
         out += [f"ds.Select(lambda e: ({i} + {l}))", f"ds.Select(lambda e: ({i}, {l}))", f"ds.Select(lambda e: {{'a': {i}, 'b': {l}}})",
                 f"ds.Select(lambda e: ({i} if {l} > 0 else {l}))", f"ds.Select(lambda e: ({l} if {i} > 0 else {l}))",
                 f"ds.Where(lambda e: {i} > 0 and {l} > 0).Select(lambda e: {l})"]
+    if backend == "atlas":
+        # the jet plug-in methods record the NAME of the object they are called on
+        out += [f"ds.Select(lambda e: {S}.Select(lambda j1: {T}.Where(lambda j2: j2.getAttributeFloat('w') > j1.getAttributeFloat('w')).Count()))",
+                f"ds.Select(lambda e: ({S}.Select(lambda j1: j1.getAttributeFloat('w')), {T}.Select(lambda j2: j2.getAttributeFloat('w'))))",
+                f"ds.Select(lambda e: {S}.Select(lambda j1: j1.parts().Select(lambda j2: j2.getAttributeFloat('w') + j1.getAttributeFloat('w')).Sum()))",
+                f"ds.Select(lambda e: {S}.Where(lambda j1: j1.getAttributeFloat('w') > 1).Select(lambda j2: j2.getAttributeVectorFloat('v').Count() + j2.getAttributeFloat('w')))"]
+    meth = ("{'metadata_type': 'add_cpp_function', 'name': 'vmpt2', 'include_files': [], 'arguments': [], 'code': ['double result = obj_j" + ("->" if backend == "atlas" else ".") +
+            "pt() * 2;'], 'method_object': 'obj_j', 'instance_object': 'X', 'return_type': 'double'}")
+    out += [f"MetaData(ds, {meth}).Select(lambda e: {S}.Select(lambda j1: {T}.Where(lambda j2: j2.vmpt2() > j1.vmpt2()).Count()))",
+            f"MetaData(ds, {meth}).Select(lambda e: ({S}.Select(lambda j1: j1.vmpt2()), {T}.Select(lambda j2: j2.vmpt2())))"]
     inner_j = ["j1.tags().Select(lambda j2: j2 * 2).Sum()", "j1.parts().Where(lambda j2: j2.pt() > 0).Count()", f"{T}.Select(lambda j2: j2.pt()).Sum()",
                "j1.parts().Select(lambda j2: j2.tags().Select(lambda j3: j3).Sum()).Sum()"]
     later_j = ["j1.eta()", "j1.nTrk()"]
